@@ -5,6 +5,7 @@ import (
 	"fmt"
 	"sort"
 	"strings"
+	"time"
 
 	"github.com/creachadair/jrpc2"
 	"verif/vs"
@@ -549,6 +550,44 @@ func c01Seq(tokens []string, conc int, b Bounds) *Scenario {
 	}
 }
 
+// c01SeqOpts runs a sequence with every ServerOptions field that is not a
+// scenario dimension elsewhere set to a non-default value at once: a debug
+// Logger, an RPCLogger (whose calls are scheduling-visible notes), AllowPush
+// and a StartTime. None of them may change what the peer sees.
+type noteRPCLog struct{}
+
+func (noteRPCLog) LogRequest(ctx context.Context, req *jrpc2.Request) {
+	vs.Note("rpclog-req", req.Method(), req.ID())
+}
+func (noteRPCLog) LogResponse(ctx context.Context, rsp *jrpc2.Response) {
+	vs.Note("rpclog-rsp", rsp.ID())
+}
+
+func c01SeqOpts(tokens []string, conc int, b Bounds) *Scenario {
+	return &Scenario{
+		Name:   fmt.Sprintf("seq{%s} conc=%d opts=log+rpclog+push+starttime", tokensName(tokens), conc),
+		Params: map[string]any{"messages": tokens, "concurrency": conc, "options": "Logger,RPCLog,AllowPush,StartTime"},
+		Bounds: b,
+		New: func() *Instance {
+			h := &seqHarness{msgs: buildSeq(tokens), gates: NewGates()}
+			return &Instance{
+				Body: func() {
+					runSeq(h, conc, &jrpc2.ServerOptions{
+						Logger:    func(text string) { _ = len(text) },
+						RPCLog:    noteRPCLog{},
+						AllowPush: true,
+						StartTime: time.Unix(1000, 0),
+					})
+				},
+				Check: func(x *vs.Exec) []Viol {
+					v := genericRules(x, nil)
+					return append(v, checkSeqResponses(h, x)...)
+				},
+			}
+		},
+	}
+}
+
 var c01Alphabet = []string{"c", "f", "n", "[cc]", "[cn]", "[nc]", "[nn]", "[n]", "[c]", "u", "v", "[cx]", "[yc]", "x", "[cd]", "i", "z", "[zz]", "[cv]", "[vn]", "[xcc]", "[ucn]", "[ync]", "e", "[ec]", "[ee]"}
 
 func c01Scenarios(tier string) []*Scenario {
@@ -574,6 +613,9 @@ func c01Scenarios(tier string) []*Scenario {
 			out = append(out, c01BaseCtx(p, 1, Bounds{1, -1, 0}))
 		}
 		out = append(out, c01PushCollide(Bounds{1, 1, 0}), c01Odd())
+		for _, p := range [][]string{{"c"}, {"n"}, {"[cn]"}, {"[cx]"}, {"e"}, {"z"}, {"n", "c"}, {"[cd]", "c"}} {
+			out = append(out, c01SeqOpts(p, 2, Bounds{1, -1, 0}))
+		}
 		return out
 	}
 	for _, a := range c01Alphabet {
@@ -602,6 +644,9 @@ func c01Scenarios(tier string) []*Scenario {
 	}
 	out = append(out, c01BaseCtx([]string{"g", "g", "n", "c"}, 2, Bounds{2, -1, 0}), c01BaseCtx([]string{"c", "n", "c"}, 2, Bounds{2, -1, 0}))
 	out = append(out, c01PushCollide(Bounds{2, 2, 0}), c01Odd())
+	for _, a := range c01Alphabet {
+		out = append(out, c01SeqOpts([]string{a}, 2, Bounds{2, -1, 0}), c01SeqOpts([]string{a, "c"}, 1, Bounds{1, -1, 0}))
+	}
 	sub := []string{"c", "n", "[cn]", "[cc]", "d", "y", "z"}
 	for _, a := range sub {
 		for _, b := range sub {
